@@ -627,6 +627,14 @@ func (e2eFamily) Gen(n int, seed int64, mode, tier string) []interface{} {
 			s.add(e2eOp{Op: "connect", N: 0, C: "other-tenant", CID: "shared", User: "tz", KA: 60})
 			s.add(e2eOp{Op: "send", C: conns[len(conns)-1], P: "ping"})
 			s.pub("watch", "t/x", "final", 0, false)
+			// the owner of an identifier ends (DISCONNECT) while its successor is being set up, between
+			// the lookup of the owner and its removal: the new session is established all the same
+			s.connect(0, "race-old", "racer", mp, 60, nil)
+			s.sub("race-old", []string{"t/#"}, []int{0})
+			s.add(e2eOp{Op: "raceconnect", N: 0, C: "race-new", CID: "racer", User: mp, KA: 60, RC: "race-old"})
+			s.sub("race-new", []string{"t/#"}, []int{0})
+			s.add(e2eOp{Op: "send", C: "race-new", P: "ping"})
+			s.pub("watch", "t/x", "raced", 0, false)
 			s.checks()
 			out = append(out, s.in)
 		case "wills":
